@@ -79,7 +79,7 @@ class CppViewHelper:
 		@property
 		def var_type_origin(self) -> str:
 			"""Returns: ベースの型"""
-			if self.var_type.startswith('const') or self.var_type.endswith('*') or self.var_type.endswith('&'):
+			if self.var_type.startswith('const ') or self.var_type.endswith('*') or self.var_type.endswith('&'):
 				return cast(re.Match, self.VarType.search(self.var_type))[2]
 			else:
 				return self.var_type.split('<')[0]
@@ -104,7 +104,7 @@ class CppViewHelper:
 			"""
 			if len(var_type) == 0:
 				return var_type
-			elif var_type.startswith('const'):
+			elif var_type.startswith('const '):
 				return var_type
 			elif cls.AnnoMutable in annotations:
 				return var_type
